@@ -325,6 +325,27 @@ theorem fill_idempotent_optimal_own_ascii (env : Env) (hsp : env.cw SP = 1)
     (fun h => by rw [hsep] at h; cases h)
   exact ⟨frs, hfrs, fun n => TW.C05.moConforms_own p frs (pipeline_noPen env o hb l _ frs hfrs) _ (by simp)⟩
 
+/-- **fill is idempotent, optimal-fit, BOTH separators — no contract of an external crate**: with
+    the model's own `smawk` and its own `linebreaks` (compiled tables) every contract hypothesis of
+    `fill_idempotent_optimal_safe` is a theorem; for the Unicode separator the lines of the first
+    result must be free of hard-line-break characters (`HardFree`, where LB7 holds) -/
+-- @audit TW.C14.fill_idempotent_optimal_own_all
+theorem fill_idempotent_optimal_own_all (env : Env) (henv : env.opps = ownOpps lbTables) (hsp : env.cw SP = 1)
+    (o : Opts) (hb : Builtin o.splitter) (p : Penalties) (halg : o.alg = .optimalFit p)
+    (hP : 0 < p.nline) (hii : o.initialIndent = []) (hsi : o.subsequentIndent = [])
+    (t : Text) (ls : List Text) (hw : wrap env (ownMinima (α := Int) p) o t = some ls)
+    (hsafe : ∀ l ∈ ls, SeqSafe o.splitter l) (hno : ∀ l ∈ ls, LF ∉ l)
+    (hfit : ∀ l ∈ ls, displayWidth env.cw l ≤ o.width)
+    (hts : ∀ l ∈ ls, l.getLast? ≠ some SP)
+    (hf : o.sep = .unicode → ∀ l ∈ ls, HardFree (stripAnsi l)) :
+    ∃ f, fill env (ownMinima (α := Int) p) o t = some f ∧ fill env (ownMinima (α := Int) p) o f = some f := by
+  refine fill_idempotent_optimal_safe env hsp _ (fun frs lws => ownMinima_rowsShape p frs lws) o hb p halg hP
+    hii hsi t ls hw hsafe hno hfit hts ?_ (fun hs l hl => oppsNoSpace_own env henv _ (hf hs l hl))
+  intro l _
+  obtain ⟨frs, hfrs⟩ := TW.C05.pipeline_total env o hb l (o.width - displayWidth env.cw o.subsequentIndent)
+    (fun _ => boundary_own env lbTables henv _)
+  exact ⟨frs, hfrs, fun n => TW.C05.moConforms_own p frs (pipeline_noPen env o hb l _ frs hfrs) _ (by simp)⟩
+
 /-! ### lines that overflow (ASCII separator, built-in splitters) -/
 
 theorem points_part (isAlnum : Char → Bool) (sp : Splitter) (hb : Builtin sp) (pre u post : Text)
@@ -571,7 +592,7 @@ theorem fill_idempotent_ascii_every_width (env : Env) (hsp : env.cw SP = 1) (hcw
 
 
 /-- `fill_idempotent_firstfit_safe` with the model's own `linebreaks`: the LB7 clause is a theorem
-    for lines without hard-line-break characters -/
+    for lines without hard-line-break characters and the pipeline never panics -/
 -- @audit TW.C14.fill_idempotent_firstfit_safe_ownlb
 theorem fill_idempotent_firstfit_safe_ownlb (env : Env) (henv : env.opps = ownOpps lbTables)
     (hsp : env.cw SP = 1) (mo : MinimaOracle Int)
@@ -581,10 +602,10 @@ theorem fill_idempotent_firstfit_safe_ownlb (env : Env) (henv : env.opps = ownOp
     (hsafe : ∀ l ∈ ls, SeqSafe o.splitter l) (hno : ∀ l ∈ ls, LF ∉ l)
     (hfit : ∀ l ∈ ls, displayWidth env.cw l ≤ o.width)
     (hts : ∀ l ∈ ls, l.getLast? ≠ some SP)
-    (hpipe : ∀ l ∈ ls, ∃ frs, pipeline env o l (o.width - displayWidth env.cw o.subsequentIndent) = some frs)
     (hf : o.sep = .unicode → ∀ l ∈ ls, HardFree (stripAnsi l)) :
     ∃ f, fill env mo o t = some f ∧ fill env mo o f = some f :=
-  fill_idempotent_firstfit_safe env hsp mo hmo o hb halg hii hsi t ls hw hsafe hno hfit hts hpipe
+  fill_idempotent_firstfit_safe env hsp mo hmo o hb halg hii hsi t ls hw hsafe hno hfit hts
+    (fun l _ => TW.C05.pipeline_total env o hb l _ (fun _ => boundary_own env lbTables henv _))
     (fun hs l hl => oppsNoSpace_own env henv _ (hf hs l hl))
 
 end TW.C14
